@@ -7,6 +7,7 @@
 """provides functionality for rendering a parsetree constructing into module
 source code."""
 
+import ast as _py_ast
 import json
 import re
 import time
@@ -1362,14 +1363,24 @@ def mangle_mako_loop(node, printer):
         m = re.match(r"^(\w+)(?:\s+(.*?))?:\s*(#|$)", text.strip(), re.S)
         if m and m.group(3):
             text = text.strip()[: m.start(3)].rstrip()
-        match = _FOR_LOOP.match(text)
-        if match:
+        # the target and the iterable as Python sees them: the target may be
+        # starred, the iterable a tuple without parentheses, either may be
+        # continued over several lines
+        code = text.strip() + " pass"
+        try:
+            stmt = _py_ast.parse(code).body[0]
+        except SyntaxError:
+            stmt = None
+        if isinstance(stmt, _py_ast.For):
             printer.writelines(
-                "loop = __M_loop._enter(%s)" % match.group(2),
+                "loop = __M_loop._enter((%s))"
+                % _py_ast.get_source_segment(code, stmt.iter),
                 "try:",
-                # 'with __M_loop(%s) as loop:' % match.group(2)
+                # 'with __M_loop(%s) as loop:' % iterable
             )
-            text = "for %s in loop:" % match.group(1)
+            text = "for %s in loop:" % _py_ast.get_source_segment(
+                code, stmt.target
+            )
         else:
             raise SyntaxError("Couldn't apply loop context: %s" % node.text)
     else:
